@@ -67,21 +67,15 @@ theorem digitChars_append (a b : List Nat) : digitChars (a ++ b) = digitChars a 
 theorem digitChars_replicate (n : Nat) : digitChars (List.replicate n 0) = List.replicate n 48 := by
   simp [digitChars]
 
-theorem headNotDigit_of_numEnd (rest : Str) (h : numEnd rest) :
-    match rest with | [] => True | c :: _ => isDigit c = false := by
-  cases rest with
-  | nil => trivial
-  | cons c t => exact h.1
-
 theorem parseFrac_digits (fp : List Nat) (hne : fp ≠ []) (hd : ∀ x ∈ fp, x < 10) (r : Str)
-    (hr : match r with | [] => True | c :: _ => isDigit c = false) :
+    (hr : headNotDigit r) :
     parseFrac (46 :: (digitChars fp ++ r)) = some (some fp, r) := by
   cases fp with
   | nil => exact absurd rfl hne
   | cons a t => simp only [parseFrac, spanDigits_digitChars (a :: t) hd r hr]
 
 theorem parseExp_digits (sg : Nat) (hsg : sg = 43 ∨ sg = 45) (ed : List Nat) (hne : ed ≠ [])
-    (hd : ∀ x ∈ ed, x < 10) (r : Str) (hr : match r with | [] => True | c :: _ => isDigit c = false) :
+    (hd : ∀ x ∈ ed, x < 10) (r : Str) (hr : headNotDigit r) :
     parseExp (101 :: sg :: (digitChars ed ++ r)) =
       some (some (if sg = 45 then -(digitsVal ed : Int) else (digitsVal ed : Int)), r) := by
   have hs := spanDigits_digitChars ed hd r hr
@@ -148,12 +142,8 @@ theorem numOK_exp (neg : Bool) (ds : List Nat) (pt : Int) (hne : ds ≠ []) (hd 
       else ((digitsVal (expDigits (pt - 1)) : Nat) : Int)) = pt - 1 := by
     rw [hev]
     split <;> rename_i h
-    · split at h
-      · omega
-      · simp at h
-    · split at h
-      · simp at h
-      · omega
+    · simp; omega
+    · simp; omega
   have hexp := parseExp_digits (if pt - 1 < 0 then 45 else 43) (by split <;> simp) (expDigits (pt - 1)) hene hed rest hrd
   rw [hex] at hexp
   match ds, hne, hd, hh, hl with
@@ -178,7 +168,8 @@ theorem numOK_exp (neg : Bool) (ds : List Nat) (pt : Int) (hne : ds ≠ []) (hd 
         101 :: (if pt - 1 < 0 then 45 else 43) :: digitChars (expDigits (pt - 1))) := by
       simp [reprExpForm, reprMantissa]
     have hfrac := parseFrac_digits (b :: r) (by simp) hdr
-      (101 :: (if pt - 1 < 0 then 45 else 43) :: (digitChars (expDigits (pt - 1)) ++ rest)) (by decide)
+      (101 :: (if pt - 1 < 0 then 45 else 43) :: (digitChars (expDigits (pt - 1)) ++ rest))
+      (by show isDigit 101 = false; decide)
     have := parseNum_unsigned neg (reprExpForm (a :: b :: r) pt) rest [a]
       (46 :: (digitChars (b :: r) ++ 101 :: (if pt - 1 < 0 then 45 else 43) :: (digitChars (expDigits (pt - 1)) ++ rest)))
       (some (b :: r))
